@@ -24,6 +24,9 @@ type ReplayResult struct {
 	Verdict   string         `json:"verdict"`
 	Cmd       string         `json:"cmd,omitempty"`
 	Error     string         `json:"error,omitempty"`
+	Decls     []string       `json:"harness_decls,omitempty"`
+	Imports   map[string]string `json:"harness_imports,omitempty"`
+	Model     map[string]string `json:"model,omitempty"`
 }
 
 // Observed value description produced by the harness.
@@ -36,6 +39,7 @@ type obsVal struct {
 	Err   string   `json:"err"`
 	Elems []obsVal `json:"elems"`
 	Len   int      `json:"len"`
+	Fields map[string]obsVal `json:"fields"`
 }
 
 type outcome struct {
@@ -44,6 +48,7 @@ type outcome struct {
 	PanicMsg  string   `json:"panic_msg"`
 	Runtime   bool     `json:"runtime_error"`
 	Results   []obsVal `json:"results"`
+	Metered   string   `json:"metered"`
 }
 
 const replayHelpers = `
@@ -59,6 +64,7 @@ type verifObs struct {
 	Err   string     ` + "`json:\"err\"`" + `
 	Elems []verifObs ` + "`json:\"elems\"`" + `
 	Len   int        ` + "`json:\"len\"`" + `
+	Fields map[string]verifObs ` + "`json:\"fields\"`" + `
 }
 
 func verifDescribe(x any) verifObs {
@@ -105,6 +111,27 @@ func verifDescribe(x any) verifObs {
 				o.Int = bi.String()
 			}
 		}
+		o.Fields = map[string]verifObs{}
+		for i := 0; i < rv.NumField(); i++ {
+			f := rv.Field(i)
+			fo := verifObs{Type: f.Type().String()}
+			switch f.Kind() {
+			case verifreflect.Int, verifreflect.Int8, verifreflect.Int16, verifreflect.Int32, verifreflect.Int64:
+				fo.Int = verifFmt.Sprint(f.Int())
+			case verifreflect.Uint, verifreflect.Uint8, verifreflect.Uint16, verifreflect.Uint32, verifreflect.Uint64:
+				fo.Int = verifFmt.Sprint(f.Uint())
+			case verifreflect.Bool:
+				b := f.Bool()
+				fo.Bool = &b
+			default:
+				if f.CanInterface() {
+					fo = verifDescribe(f.Interface())
+				} else {
+					continue
+				}
+			}
+			o.Fields[rv.Type().Field(i).Name] = fo
+		}
 	}
 	if e, ok := x.(error); ok {
 		o.Err = e.Error()
@@ -112,8 +139,12 @@ func verifDescribe(x any) verifObs {
 	return o
 }
 
+var verifMeteredTotal uint64
+
 func VerifReplayRun(f func() []any) string {
+	verifMeteredTotal = 0
 	type outc struct {
+		Metered   string     ` + "`json:\"metered\"`" + `
 		Panicked  bool       ` + "`json:\"panicked\"`" + `
 		PanicType string     ` + "`json:\"panic_type\"`" + `
 		PanicMsg  string     ` + "`json:\"panic_msg\"`" + `
@@ -137,6 +168,7 @@ func VerifReplayRun(f func() []any) string {
 			o.Results = append(o.Results, verifDescribe(r))
 		}
 	}()
+	o.Metered = verifFmt.Sprint(verifMeteredTotal)
 	b, _ := verifjson.Marshal(o)
 	return string(b)
 }
@@ -164,10 +196,15 @@ func verifDescribePkg(x any) (verifObs, bool) { return verifObs{}, false }
 
 // goExpr renders a concrete Go expression for symbolic value v under the model.
 type modelEnv struct {
-	m    map[string]string
-	pkg  *types.Package
-	prog *Program
-	desc []string
+	m         map[string]string
+	pkg       *types.Package
+	prog      *Program
+	desc      []string
+	imports   map[string]string // package path -> name, for foreign types used in the harness
+	wantGauge bool              // pass a recording gauge for gauge/context parameters (C32 replays)
+	decls     []string          // extra top-level declarations (gauge wrappers)
+	pre       []string          // statements before the call
+	declBase  int
 }
 
 func (me *modelEnv) intOf(t *Term) (*big.Int, bool) {
@@ -189,8 +226,25 @@ func (me *modelEnv) qual(t types.Type) string {
 		if p == me.pkg {
 			return ""
 		}
+		if me.imports == nil {
+			me.imports = map[string]string{}
+		}
+		me.imports[p.Path()] = p.Name()
 		return p.Name()
 	})
+}
+
+func hasMethod(t types.Type, name string) bool {
+	it, ok := t.Underlying().(*types.Interface)
+	if !ok {
+		return false
+	}
+	for i := 0; i < it.NumMethods(); i++ {
+		if it.Method(i).Name() == name {
+			return true
+		}
+	}
+	return false
 }
 
 func (me *modelEnv) goExpr(name string, v Val, t types.Type) (string, bool) {
@@ -272,6 +326,22 @@ func (me *modelEnv) goExpr(name string, v Val, t types.Type) (string, bool) {
 			return "nil", true
 		}
 		k, ok := me.intOf(x.Kind)
+		if me.wantGauge && t != nil && hasMethod(t, "MeterMemory") && (!ok || k.Sign() != 0) {
+			// a recording gauge: an embedded nil interface of the static type with the metering methods overridden
+			n := me.declBase + len(me.decls) + 1
+			commonPkg := "common."
+			if me.pkg.Path() == cadenceMod+"/common" {
+				commonPkg = ""
+			} else {
+				if me.imports == nil {
+					me.imports = map[string]string{}
+				}
+				me.imports[cadenceMod+"/common"] = "common"
+			}
+			me.decls = append(me.decls, fmt.Sprintf("type verifGauge%d struct{ %s }\nfunc (g *verifGauge%d) MeterMemory(u %sMemoryUsage) error { verifMeteredTotal += u.Amount; return nil }\nfunc (g *verifGauge%d) MeterComputation(u %sComputationUsage) error { return nil }\n", n, me.qual(t), n, commonPkg, n, commonPkg))
+			me.desc = append(me.desc, name+"=<recording gauge>")
+			return fmt.Sprintf("&verifGauge%d{}", n), true
+		}
 		if !ok || k.Sign() == 0 {
 			// nil interface (or unconstrained): contexts and gauges are passed as nil
 			return "nil", true
@@ -345,7 +415,13 @@ func (p *Program) Replay(opts CheckOpts, name string, res *OblResult, frs []*Fun
 	if fr == nil || fr.Exec == nil {
 		return nil
 	}
-	return p.replayModel(fr, res.Ans.Model, work, opts.Overlay)
+	wantGauge := fr.Contract.Replay == "metering"
+	for _, t := range res.O.Tags {
+		if t == "C32" {
+			wantGauge = true
+		}
+	}
+	return p.replayCandidates(fr, res.Ans.Model, work, opts.Overlay, wantGauge)
 }
 
 func (p *Program) replayModel(fr *FuncResult, model map[string]string, work string, overlaySrc map[string][]byte) *ReplayResult {
@@ -538,13 +614,21 @@ func (p *Program) judge(fr *FuncResult, model map[string]string, oc *outcome, wo
 	ask := func(label string, asserts ...*Term) string {
 		q := &Query{Defs: ex.Defs}
 		for _, n := range sortedKeys(ex.Funs) {
+			if conc, ok := ufunConcrete[strings.TrimPrefix(n, "0uf_")]; ok && strings.HasPrefix(n, "0uf_") {
+				q.Funs = append(q.Funs, conc)
+				continue
+			}
 			q.Funs = append(q.Funs, ex.Funs[n])
 		}
 		q.Asserts = append(q.Asserts, ex.Assumes...)
 		q.Asserts = append(q.Asserts, pins...)
 		q.Asserts = append(q.Asserts, asserts...)
 		ans := Solve(q, "judge."+label, SolverCfg{Timeout: 20 * time.Second, WorkDir: work})
-		os.Remove(ans.File)
+		if os.Getenv("VERIF_DEBUG_REPLAY") != "" {
+			fmt.Fprintf(os.Stderr, "  judge %s: %s (%s %.2fs) %s\n", label, ans.Result, ans.Solver, ans.TimeS, ans.File)
+		} else {
+			os.Remove(ans.File)
+		}
 		return ans.Result
 	}
 	var res string
@@ -554,6 +638,10 @@ func (p *Program) judge(fr *FuncResult, model map[string]string, oc *outcome, wo
 				verdict = fmt.Sprintf("could not evaluate contract on the observation: %v", r)
 			}
 		}()
+		if r := ask("sanity"); r == "unsat" {
+			verdict = "candidate input is inconsistent with the model's aliasing (not judged)"
+			return
+		}
 		entryEnv.bindLets(c, false)
 		var conds []*Term
 		for _, f := range c.Fails {
@@ -605,7 +693,9 @@ func (p *Program) judge(fr *FuncResult, model map[string]string, oc *outcome, wo
 		}
 		// bind observed results
 		st := ex.Entry.snapshot()
-		st.Big = Sym("heapObs", ArraySort(IntSort, IntSort))
+		if m, ok := new(big.Int).SetString(oc.Metered, 10); ok {
+			st.Ghost["metered"] = IntBig(m)
+		}
 		var binds []*Term
 		vars := map[string]Val{}
 		for k, v := range ex.ParamVals {
@@ -735,7 +825,20 @@ func (ob *obsBinder) bind(v Val, o obsVal, t types.Type) {
 		if st.NumFields() == 0 {
 			return
 		}
-		ob.err = "struct observation not supported: " + x.Typ.String()
+		for i := 0; i < st.NumFields(); i++ {
+			fo, ok := o.Fields[st.Field(i).Name()]
+			if !ok {
+				continue
+			}
+			switch x.F[i].(type) {
+			case Scalar, StructV:
+				ob.bind(x.F[i], fo, st.Field(i).Type())
+			case PtrV:
+				if isBigIntPtr(st.Field(i).Type()) {
+					ob.bind(x.F[i], fo, st.Field(i).Type())
+				}
+			}
+		}
 	case PtrV:
 		if x.K == PBig {
 			if o.Nil {
@@ -749,7 +852,8 @@ func (ob *obsBinder) bind(v Val, o obsVal, t types.Type) {
 			}
 			ob.nref++
 			ref := IntC(int64(-5000000 - ob.nref))
-			ob.facts = append(ob.facts, Eq(x.Ref, ref), Eq(Select(ob.st.Big, ref), IntBig(n)))
+			ob.st.Big = Store(ob.st.Big, ref, IntBig(n))
+			ob.facts = append(ob.facts, Eq(x.Ref, ref))
 			return
 		}
 		ob.err = "pointer observation not supported"
@@ -795,7 +899,3 @@ func (ob *obsBinder) lookupObservedType(name string) types.Type {
 	return t
 }
 
-// KnownInputStillFails: a known finding is keyed by obligation name and an input description.
-func (p *Program) KnownInputStillFails(opts CheckOpts, k KnownFinding, res *OblResult, frs []*FuncResult, work string) bool {
-	return true
-}
